@@ -61,4 +61,65 @@ def validSpan (g : G) (root : Nat) (res : List (Nat × Nat)) : Bool :=
        acc.2 ++ [pc.2]))
       (true, [root])).1
 
+/-- depth table `(vertex, depth)` of a parent-before-child listing: the root has depth 0, a
+child the depth of its parent plus one (`lookup` returns the first entry, default 0) -/
+def spanDepths (root : Nat) (res : List (Nat × Nat)) : List (Nat × Nat) :=
+  res.foldl (fun d pc => d ++ [(pc.2, lookup d pc.1 + 1)]) [(root, 0)]
+
+/-- checker, "minimum" part of the name: additionally the listed tree is a breadth-first
+tree, i.e. the tree depths of the two endpoints of EVERY edge of `g` differ by at most one
+(equivalently: tree distance from the root = graph distance from the root, theorem
+`validMinSpan_dist`). -/
+def validMinSpan (g : G) (root : Nat) (res : List (Nat × Nat)) : Bool :=
+  validSpan g root res &&
+  g.edges.all (fun e =>
+    lookup (spanDepths root res) e.1 ≤ lookup (spanDepths root res) e.2 + 1 &&
+    lookup (spanDepths root res) e.2 ≤ lookup (spanDepths root res) e.1 + 1)
+
+/-- first loop (`while len(frontier) > 0 and len(seen) < self.num_qudits`): breadth-first
+search with a queue.  `ord q l` is the order in which the set `unseen_neighbors` (given as
+the sorted list `l`) is iterated when `q` is expanded (the same set object is iterated by
+`frontier.extend` and by the `for` loop, unmodified in between: one order).  State: `mst`,
+`seen` (as a list), `frontier`.  Every vertex is popped at most once, fuel `n` suffices. -/
+def spanBfs (g : G) (ord : Nat → List Nat → List Nat) :
+    Nat → List (Nat × Nat) → List Nat → List Nat → List (Nat × Nat)
+  | 0, mst, _, _ => mst
+  | _ + 1, mst, _, [] => mst
+  | fuel + 1, mst, seen, q :: fr =>
+    if seen.length < g.n then
+      let unseen := ord q ((g.adj q).filter (fun v => !seen.contains v))
+      spanBfs g ord fuel (mst ++ unseen.map (fun v => (q, v))) (seen ++ unseen) (fr ++ unseen)
+    else mst
+
+/-- second loop: depth-first traversal of the tree `t = CouplingGraph(mst)` with a stack of
+`(qudit, interaction)`; `ord q l` is the iteration order of `mst.get_neighbors_of(q)`.
+`mst_frontier.insert(0, …)` for every neighbour in turn: the neighbours end up on the stack in
+reverse order.  There is no visited set: only the parent `interaction[0]` is skipped. -/
+def spanDfs (t : G) (ord : Nat → List Nat → List Nat) :
+    Nat → List (Nat × Nat) → List (Nat × Option (Nat × Nat)) → List (Nat × Nat)
+  | 0, out, _ => out
+  | _ + 1, out, [] => out
+  | fuel + 1, out, (q, inter) :: st =>
+    let out' := match inter with
+      | some i => out ++ [i]
+      | none => out
+    let nbrs := (ord q (t.adj q)).filter (fun nb => match inter with
+      | none => true
+      | some i => nb != i.1)
+    spanDfs t ord fuel out' ((nbrs.map (fun nb => (nb, some (q, nb)))).reverse ++ st)
+
+/-- `get_rooted_minimum_span(root)` for given iteration orders `ord1` (first loop) and `ord2`
+(second loop).  `none` = the call raises: `IndexError` from `self._adj[root]` when
+`root ≥ num_qudits` (first loop, or second loop when `num_qudits = 1`), or from
+`mst._adj[root]` when `root` is an isolated vertex beyond the largest vertex of the tree
+(`CouplingGraph(mst)` infers its size).  For a disconnected graph the code otherwise returns
+silently the span of the component of `root`. -/
+def G.rootedSpan (g : G) (ord1 ord2 : Nat → List Nat → List Nat) (root : Nat) :
+    Option (List (Nat × Nat)) :=
+  if root ≥ g.n then none else
+  let mst := spanBfs g ord1 g.n [] [root] [root]
+  match mk? mst none with
+  | none => none
+  | some t => if root ≥ t.n then none else some (spanDfs t ord2 (g.n + 1) [] [(root, none)])
+
 end BqVerif.Graph
